@@ -153,7 +153,7 @@ def handle (args : List String) : Option String :=
     some <| triple <| match rConfs files with
       | none => "bad-wire"
       | some fs =>
-        match loadConfigG fs (unhexS path) with
+        match loadConfigG includeChecked fs (unhexS path) with
         | none => "hang"
         | some true => "ok"
         | some false => "err"
